@@ -4,11 +4,17 @@ Engine P.  One case = one Coxeter matrix with one way of writing infinity, one c
 (matrix / diagram) and one naming style; inside the case every representation the API offers is built
 fresh (geometric, canonical, both diagonalised, Cartan-matrix representations, Tits-Vinberg, hyperbolic)
 and compared with the cosine form / signature computed by the oracle (mc/oracle/coxeter_words.py).
+Two more constructor configurations run the same comparison: "matrix-owned" (the caller keeps the ndarray /
+nested list it passed as matrix= and afterwards leaves it alone, overwrites it with another Coxeter matrix
+or with arbitrary integers: the group must keep the labels it was built from, and no call may write into
+the caller's container or change G.coxeter_matrix) and "diagram+matrix" (redundant matrix= next to
+diagram=: the documented behaviour is that the matrix is ignored).
 Second family: hyperbolic triangle groups, fixed points of the three rotations vs the angles pi/p,
 pi/q, pi/r (mc/oracle/hyp.py).
 """
 import itertools
 import math
+import warnings
 
 import numpy as np
 
@@ -54,22 +60,63 @@ class Collector:
                 for k, (n, ms) in sorted(self.d.items())]
 
 
-def build_group(case):
+PACKAGINGS = ["ndarray-int", "ndarray-float", "list"]
+AFTERS = ["keep", "other", "garbage"]
+
+
+def garbage(n):
+    """not a Coxeter matrix at all: not symmetric, diagonal != 1, mixed signs"""
+    return [[7 * i - 3 * j - 2 for j in range(n)] for i in range(n)]
+
+
+def pack(m, packaging):
+    if packaging == "list":
+        return [list(r) for r in m]
+    return np.array(m, dtype=(int if packaging == "ndarray-int" else float))
+
+
+def build_group(case, V):
     """Fresh CoxeterGroup; returns (G, matrix written by the harness in the order of G.ordered_gens,
-    names in that order)."""
+    names in that order, (container handed to the constructor as matrix=, its expected contents at
+    the end of the case) or None); G is None when the constructor result cannot be interpreted."""
     from geometry_tools import coxeter
     m = case["m"]
     n = len(m)
     style = case.get("style", "alpha")
-    if case.get("route", "matrix") == "matrix":
+    route = case.get("route", "matrix")
+    if route == "matrix":
         G = coxeter.CoxeterGroup(matrix=[list(r) for r in m], generator_style=style)
-        return G, m, gen_names(n, style)
+        return G, m, gen_names(n, style), None
+    if route == "matrix-owned":
+        # the caller keeps (and possibly reuses) the container it handed over
+        box = pack(m, case["packaging"])
+        G = coxeter.CoxeterGroup(matrix=box, generator_style=style)
+        final = m
+        if case["after"] != "keep":
+            final = case["m2"] if case["after"] == "other" else garbage(n)
+            for i in range(n):
+                for j in range(n):
+                    box[i][j] = final[i][j]
+        return G, m, gen_names(n, style), (box, final)
     names = gen_names(n, style)
     pairs = case.get("pairs") or [[i, j] for i in range(n) for j in range(i + 1, n)]
-    G = coxeter.CoxeterGroup(diagram=[(names[i], names[j], m[i][j]) for (i, j) in pairs])
+    diagram = [(names[i], names[j], m[i][j]) for (i, j) in pairs]
+    box = None
+    if route == "diagram":
+        G = coxeter.CoxeterGroup(diagram=diagram)
+    else:
+        # "diagram+matrix": redundant data; documented (docstring of generator_style, text of the
+        # warning "ignoring Coxeter matrix and constructing from diagram"): the diagram defines the group
+        box = pack(case["m2"], case.get("packaging", "list"))
+        with warnings.catch_warnings():
+            warnings.simplefilter("ignore")
+            G = coxeter.CoxeterGroup(diagram=diagram, matrix=box, generator_style=case.get("mstyle", "alpha"))
     order = list(G.ordered_gens)
+    if sorted(map(str, order)) != sorted(names):
+        V.add("ctor/generator-names/" + route, "diagram on generators %r: the group has generators %r" % (names, order))
+        return None, m, names, None
     idx = [names.index(g) for g in order]
-    return G, [[m[a][b] for b in idx] for a in idx], order
+    return G, [[m[a][b] for b in idx] for a in idx], order, (None if box is None else (box, case["m2"]))
 
 
 def W(word, names, single):
@@ -132,12 +179,34 @@ def relation_checks(V, tag, R, nm, names, single, exact_order):
 
 
 def case_group(case):
-    G, m, names = build_group(case)
+    route = case.get("route", "matrix")
+    V = Collector("matrix %r (%s, %s)" % (case["m"], route, case.get("style", "alpha")))
+    G, m, names, caller = build_group(case, V)
+    if G is None:
+        return {"v": V.out(), "t": 1, "o": "ctor", "nt": True}
     n = len(m)
     single = all(len(x) == 1 for x in names)
-    V = Collector("matrix %r (%s, %s)" % (m, case.get("route", "matrix"), case.get("style", "alpha")))
-    if [list(map(int, r)) for r in np.asarray(G.coxeter_matrix).tolist()] != [list(r) for r in m]:
-        V.add("ctor/coxeter_matrix", "library matrix %r" % (np.asarray(G.coxeter_matrix).tolist(),))
+    cls = route + ("/" + case["packaging"] if "packaging" in case else "")
+
+    def same_matrix(x, want):
+        try:
+            a = np.asarray(x)
+            return a.shape == (len(want), len(want[0])) and bool(np.all(a == np.array(want)))
+        except Exception:
+            return False
+
+    def owned(call):
+        """the group's own labels are those it was constructed from, whatever has been called since and
+        whatever the caller has done to the container it passed in"""
+        if not same_matrix(G.coxeter_matrix, m):
+            V.add("ownership/coxeter_matrix-changed/%s/%s" % (call, cls), "coxeter_matrix is now %r"
+                  % (np.asarray(G.coxeter_matrix).tolist(),))
+            return False
+        return True
+
+    if not same_matrix(G.coxeter_matrix, m):
+        V.add("ctor/coxeter_matrix" + ("" if route in ("matrix", "diagram") else "/" + cls), "library matrix %r%s" % (np.asarray(G.coxeter_matrix).tolist(),
+              "" if caller is None else "; the container passed as matrix= now holds %r" % (np.asarray(caller[0]).tolist(),)))
         return {"v": V.out(), "t": 1, "o": "ctor", "nt": True}
     nm = cw.normalize(m)
     B = cw.cosine_form(nm)
@@ -148,16 +217,24 @@ def case_group(case):
     words3 = list(words_upto(n, int(case.get("Lw", 3))))
 
     # ---- the cosine form itself
-    Bl = np.asarray(G.bilinear_form(), dtype=float)
+    Bret = G.bilinear_form()
+    Bl = np.array(Bret, dtype=float)
     t += 1
+    if case.get("scribble"):
+        # the returned array belongs to the caller: overwriting it must not reach the group
+        try:
+            Bret[...] = 99.0
+        except (TypeError, ValueError):
+            pass
+    owned("bilinear_form")
     if Bl.shape != B.shape:
         V.add("bilinear_form/shape", "shape %r" % (Bl.shape,))
     else:
         for i in range(n):
             for j in range(n):
                 if not (abs(Bl[i, j] - B[i, j]) <= 1e-12):
-                    cls = "diagonal" if i == j else ("infinite-label" if nm[i][j] <= 0 else "finite-label")
-                    V.add("bilinear_form/value/" + cls, "entry (%d,%d) for label %r is %r, -cos(pi/m) = %r"
+                    cls2 = "diagonal" if i == j else ("infinite-label" if nm[i][j] <= 0 else "finite-label")
+                    V.add("bilinear_form/value/" + cls2, "entry (%d,%d) for label %r is %r, -cos(pi/m) = %r"
                           % (i, j, m[i][j], float(Bl[i, j]), float(B[i, j])))
 
     # ---- geometric and canonical representation
@@ -168,6 +245,7 @@ def case_group(case):
     t += tt
     cgens, tt = relation_checks(V, "canonical", can, nm, names, single, True)
     t += tt
+    owned("geometric_representation,canonical_representation")
     conv = "?"
     ec = er = 0.0
     gw = {}
@@ -219,6 +297,7 @@ def case_group(case):
             M = mat(geod[W(w, names, single)])
             V.num("geometric-diag/conjugate-of-geometric", abs(float(np.trace(M) - np.trace(gw[w]))),
                   1e-8 * scale_of([M, gw[w]]) * n, "word %r: trace differs" % (w,))
+        owned("diagonalize=True")
         o_diag = "D"
 
     # ---- Cartan-matrix representations
@@ -234,6 +313,7 @@ def case_group(case):
         t += 1
         _, tt = relation_checks(V, tag, R, nm, nms, all(len(x) == 1 for x in nms), False)
         t += tt
+    owned("cartan_representation")
     if has_inf:
         params = {}
         pm = np.zeros((n, n))
@@ -247,6 +327,17 @@ def case_group(case):
             t += 1
             _, tt = relation_checks(V, tag.split("/")[0], R, nm, names, single, False)
             t += tt
+        if case.get("scribble"):
+            # the Cartan matrix handed out is the caller's as well
+            Cm = G.cartan_matrix(dict(params))
+            t += 1
+            try:
+                Cm[...] = 99.0
+            except (TypeError, ValueError):
+                pass
+            _, tt = relation_checks(V, "tits-vinberg", G.tits_vinberg_rep(dict(params)), nm, names, single, False)
+            t += tt + 1
+        owned("cartan_matrix,tits_vinberg_rep")
 
     # ---- hyperbolic representation
     o_hyp = ""
@@ -294,7 +385,20 @@ def case_group(case):
                 e2 = float(np.max(np.abs(M - w2)))
                 V.num("hyperbolic/isometries/product", min(e1, e2), 1e-8 * s, "word %r is not the product of its letters" % (w,))
         o_hyp = "H%d" % (n - 1)
+        owned("hyperbolic_rep")
 
+    if caller is not None:
+        if case.get("automaton"):
+            G.automaton()
+            t += 1
+            owned("automaton")
+            # asked for again after everything else: still the relations of the ORIGINAL labels
+            _, tt = relation_checks(V, "geometric", G.geometric_representation(), nm, names, single, False)
+            t += tt + 1
+        box, final = caller
+        if not same_matrix(box, final):
+            V.add("ownership/caller-container-modified/" + cls, "the container passed as matrix= held %r, now %r"
+                  % (final, np.asarray(box).tolist()))
     worst = max([r for (r, k) in V.worst.values()] or [0.0])
     cox = np.eye(n)
     for gmat in ggens:
@@ -440,6 +544,60 @@ def route_cases(m, routes):
         yield c
 
 
+def shifted(m, labs):
+    """a different valid Coxeter matrix of the same rank: every off-diagonal label replaced by its
+    successor in the cycle labs (infinity keeps the encoding used in m)"""
+    inf = min([x for r in m for x in r if x <= 0] or [0])
+    norm = [0 if x <= 0 else x for x in labs]
+
+    def nxt(x):
+        y = norm[(norm.index(0 if x <= 0 else x) + 1) % len(norm)]
+        return inf if y == 0 else y
+    n = len(m)
+    return [[1 if i == j else nxt(m[i][j]) for j in range(n)] for i in range(n)]
+
+
+def bordered(m, label=3):
+    n = len(m)
+    return [list(r) + [label] for r in m] + [[label] * n + [1]]
+
+
+def owned_cases(m, labs, k=None):
+    """matrix route, the caller keeps the container: (packaging, what the caller does with it after the
+    constructor returned) - all 9 combinations, or the k-th of the cycle"""
+    combos = [(pk, af) for pk in PACKAGINGS for af in AFTERS]
+    sel = range(len(combos)) if k is None else [k % len(combos)]
+    for c in sel:
+        pk, af = combos[c]
+        case = {"m": m, "route": "matrix-owned", "style": ("alpha", "alphanum")[(c + (k or 0) // len(combos)) % 2],
+                "packaging": pk, "after": af, "scribble": True, "automaton": len(m) <= 3}
+        if af == "other":
+            case["m2"] = shifted(m, labs)
+        yield case
+
+
+def redundant_cases(m, labs, mode, k=0):
+    """diagram route with a redundant matrix= argument: the same matrix, a different matrix of the same
+    rank, of rank + 1, of rank - 1 (rank >= 3); x naming of the diagram; x (generator_style, packaging of
+    the matrix).  mode "full": complete product; "cycled": every (matrix, naming), the last factor cycled;
+    "one": the k-th (matrix, naming) of the cycle only."""
+    n = len(m)
+    sh = shifted(m, labs)
+    variants = [m, sh, bordered(sh)] + ([[r[:n - 1] for r in sh[:n - 1]]] if n >= 3 else [])
+    dstyles = [("alpha", None), ("alphanum", None), ("xyz", "rev")]
+    extra = [(ms, pk) for ms in ("alpha", "alphanum") for pk in ("list", "ndarray-int")]
+    combos = [(a, b) for a in range(len(variants)) for b in range(len(dstyles))]
+    for idx, (a, b) in enumerate(combos):
+        if mode == "one" and idx != k % len(combos):
+            continue
+        for e in (range(len(extra)) if mode == "full" else [(idx + k) % len(extra)]):
+            case = {"m": m, "route": "diagram+matrix", "style": dstyles[b][0], "m2": variants[a],
+                    "mstyle": extra[e][0], "packaging": extra[e][1]}
+            if dstyles[b][1] == "rev":
+                case["pairs"] = [[j, i] for i in range(n) for j in range(i + 1, n)][::-1]
+            yield case
+
+
 def _wanted(ctx, name):
     only = getattr(ctx, "only", None)
     return not only or any(name.startswith(p) for p in only)
@@ -458,6 +616,10 @@ def run(ctx):
                 "with one encoding of infinity")
     ctx.assume("Coxeter matrices are symmetric integer matrices, 1 on the diagonal, entries >= 2 or <= 0 (infinite); "
                "a diagram lists every pair of generators once")
+    ctx.assume("a group is defined by the data handed to its constructor at that moment: what the caller does afterwards with the "
+               "container it passed as matrix= (or with arrays returned by bilinear_form / cartan_matrix) does not change the group")
+    ctx.assume("diagram= together with matrix=: the diagram defines the group (constructor docstring: generator_style 'is ignored if a "
+               "diagram is specified'; warning text 'ignoring Coxeter matrix and constructing from diagram'); the warning is suppressed")
     ctx.assume("diagonalize=True is requested only when the oracle's cosine form is non-degenerate (all |eigenvalues| "
                "> 1e-6): the documented target is a diagonal form with unit-modulus entries")
     ctx.assume("hyperbolic_rep is requested only when the oracle's cosine form has signature (d,1), eigenvalue margin 1e-6")
@@ -495,6 +657,34 @@ def run(ctx):
       domains={"labels": labs, "ordered matrices": 13 ** 3, "infinity written as": [0, -1],
                "routes": ([r[:2] for r in ROUTES] if not q else "matrix/alpha for all; all 5 routes for labels %r" % sub)},
       chunk=16)
+    # ---- the group owns its labels (matrix route) / redundant matrix= next to diagram= (diagram wins)
+    own, red = [], []
+    for l in labs:
+        for mm in encodings(sym_matrix(2, [l])):
+            own.extend(owned_cases(mm, labs))
+            red.extend(redundant_cases(mm, labs, "full"))
+    small = [2, 3, 5, 0]
+    for k, m in enumerate(all_matrices(3, sub if q else labs)):
+        full = all((x in small) for r in m for x in r if x != 1)
+        for mm in encodings(m):
+            own.extend(owned_cases(mm, labs, None if full else k))
+            red.extend(redundant_cases(mm, labs, "cycled" if full else "one", k))
+    for c in own + red:
+        c["Lw"] = 2
+    P("rank2-3-owned-labels", "checks.c08:case_group", own,
+      domains={"labels": "rank 2: %r; rank 3: %r, all 9 combinations; other rank 3 matrices over %r: one combination per matrix, cycled"
+                         % (labs, small, sub if q else labs),
+               "container passed as matrix=": PACKAGINGS,
+               "afterwards the caller": ["keeps it", "overwrites it in place with another Coxeter matrix (every label changed)",
+                                         "overwrites it in place with a non-symmetric matrix of arbitrary integers"],
+               "also": "the arrays returned by bilinear_form / cartan_matrix are overwritten by the caller; automaton() is called"},
+      chunk=16)
+    P("rank2-3-diagram-plus-matrix", "checks.c08:case_group", red,
+      domains={"labels": "rank 2: %r; rank 3: %r; other rank 3 matrices over %r: one (redundant matrix, naming) per matrix, cycled"
+                         % (labs, small, sub if q else labs),
+               "redundant matrix": ["the diagram's", "same rank, every label different", "rank + 1", "rank - 1 (rank 3)"],
+               "diagram naming": ["alpha", "alphanum", "xyz, pairs reversed"],
+               "generator_style x packaging of the matrix": "rank 2: complete product; rank 3: cycled"}, chunk=16)
     # ---- rank 4
     labs4 = [2, 3, 4, 0] if q else [2, 3, 4, 5, 6, 0]
     cases = []
@@ -506,6 +696,19 @@ def run(ctx):
             cases.append(c)
     P("rank4", "checks.c08:case_group", cases,
       domains={"labels": labs4, "ordered matrices": len(cases), "route / encoding": "cycled deterministically over the 5 routes and 2 encodings"},
+      chunk=32)
+    cases = []
+    labs4o = [2, 3, 0] if q else [2, 3, 4, 0]
+    for i, m in enumerate(all_matrices(4, labs4o)):
+        enc = encodings(m)
+        mm = enc[i % len(enc)]
+        cs = list(owned_cases(mm, labs4o, i // 2)) if i % 2 == 0 else list(redundant_cases(mm, labs4o, "one", i // 2))
+        for c in cs:
+            c["Lw"] = 2
+            cases.append(c)
+    P("rank4-owned-labels-and-diagram-plus-matrix", "checks.c08:case_group", cases,
+      domains={"labels": labs4o, "ordered matrices": len(cases),
+               "configuration": "alternating owned-labels / diagram+matrix, the combinations of each cycled deterministically"},
       chunk=32)
     # ---- rank 5 (thorough)
     if not q:
